@@ -245,23 +245,92 @@ def o_callbacks(ex, V):
 
 @oracle("C17")
 def o_logger(ex, V):
-    """Silent before the last operation that had completed before this invocation began, audible after."""
+    """Silent for log calls that precede (in program order) an operation that had completed before this invocation
+    began; audible once execution has passed the last such operation; first invocation: everything; records carry
+    the execution ARN and the enclosing context's id."""
     for k, inv in enumerate(ex["invs"]):
         term = terminal_at_start(inv)
-        if not inv["start_tbl"]:
-            want_all = True
-        else:
-            want_all = False
+        raw = inv["raw_trace"]
+        last = None
+        from_cbres = False
+        for i, ev in enumerate(raw):
+            if ev[0] == "call":
+                from_cbres = ev[1] == "cbres"
+            # Callback.result() is the second program point of the callback operation: the operation's position
+            # in program order is its create_callback call, so result() deliveries do not move the boundary
+            if ev[0] == "deliver" and tuple(ev[1]) in term and not from_cbres:
+                last = i
         emitted = [m for m, _ in inv["logs"]]
-        # reconstruct program order of logs vs deliveries from the raw trace is not possible for suppressed
-        # logs; the model comparison covers exact agreement.  Here: (a) first invocation emits everything the
-        # script logs on the executed path (checked via the model), (b) every emitted record carries the ARN.
+        eset = set(emitted)
+        for i, ev in enumerate(raw):
+            if ev[0] != "logcall":
+                continue
+            msg = ev[2]
+            if not inv["start_tbl"]:
+                if msg not in eset:
+                    V("C17.first_invocation_log_suppressed", {"inv": k, "msg": msg})
+            elif last is not None and i < last:
+                if msg in eset:
+                    V("C17.replayed_log_emitted", {"inv": k, "msg": msg, "page_size": inv["plan"].get("page_size"),
+                                                   "first_page_ops": 1 + (len(inv["start_tbl"]) if not inv["plan"].get("page_size") else max(0, inv["plan"]["page_size"] - 1))})
+            elif last is not None and i > last:
+                if msg not in eset:
+                    caught = [e[1] for e in raw[:i] if e[0] == "deliver" and "err" in e[2]]
+                    V("C17.new_log_suppressed", {"inv": k, "msg": msg, "errors_delivered_before": caught})
         for m, extra in inv["logs"]:
             if extra.get("executionArn") != "arn:exec":
                 V("C17.missing_execution_arn", {"inv": k, "msg": m, "extra": extra})
+        # parentId of the enclosing context
+        for i, ev in enumerate(raw):
+            if ev[0] == "logcall" and ev[1]:
+                rec = [x for m, x in inv["logs"] if m == ev[2]]
+                if rec and not rec[0].get("parentId"):
+                    V("C17.missing_parent_id", {"inv": k, "msg": ev[2], "ctx": ev[1], "extra": rec[0]})
 
 
-ALL_ORACLES = [o_completed_yields, o_no_reentry, o_replay_transparent, o_write_ahead, o_amo, o_suspension, o_valid_history, o_step_retries,
+@oracle("C16")
+def o_large(ex, V):
+    """Oversized child results stay out of checkpoints (summary + ReplayChildren); an oversized final result is
+    recorded as the execution result before the invocation reports an empty payload."""
+    lim = ex["limits"].get("ckpt_limit")
+    for k, inv in enumerate(ex["invs"]):
+        for ev in inv["raw_trace"]:
+            if ev[0] == "upd" and ev[1]["type"] == "CONTEXT" and ev[1]["action"] == "SUCCEED":
+                pl = ev[1]["payload"] or ""
+                if lim is not None and len(pl) > lim:
+                    V("C16.oversized_payload_checkpointed", {"inv": k, "pos": ev[1]["pos"], "size": len(pl), "limit": lim})
+                if ev[1]["replayChildren"] and lim is not None and False:
+                    pass
+        out = inv.get("out_raw")
+        rl = ex["limits"].get("resp_limit")
+        if out is not None and rl is not None and out.get("Status") == "SUCCEEDED":
+            if out.get("Result") == "":
+                er = inv.get("exec_result")
+                if not er or er.get("action") != "SUCCEED" or not er.get("payload"):
+                    V("C16.large_result_not_recorded_before_empty_response", {"inv": k, "exec_result": er})
+            elif len(out.get("Result") or "") > rl:
+                V("C16.response_exceeds_limit", {"inv": k, "size": len(out["Result"]), "limit": rl})
+
+
+@oracle("C16")
+def o_large_replay_equal(ex, V):
+    """Every replay of a context recorded with ReplayChildren rebuilds an equal result."""
+    first = {}
+    rc = set()
+    for k, inv in enumerate(ex["invs"]):
+        for r in inv["start_tbl"]:
+            if r["kind"] == "context" and r["replayChildren"] and r["status"] == "SUCCEEDED":
+                rc.add(tuple(r["pos"]))
+        for ev in inv["trace"]:
+            if ev[0] == "deliver":
+                p = tuple(ev[1])
+                if p in first and p in rc and first[p][1] != ev[2]:
+                    V("C16.replayed_result_differs", {"pos": ev[1], "first": {"inv": first[p][0], "outcome": first[p][1]},
+                                                      "later": {"inv": k, "outcome": ev[2]}})
+                first.setdefault(p, (k, ev[2]))
+
+
+ALL_ORACLES = [o_large, o_large_replay_equal, o_completed_yields, o_no_reentry, o_replay_transparent, o_write_ahead, o_amo, o_suspension, o_valid_history, o_step_retries,
                o_wfc_state, o_callbacks, o_logger]
 
 
@@ -384,6 +453,13 @@ def meta(prop):
 
 def extra(ctx, prop):
     """Property-specific additional components."""
+    if prop == "C16":
+        # oversized FINAL results: the wrapper must checkpoint them as the execution result
+        for i in range(ctx.scale(60, 1500)):
+            script = E.gen_script(ctx.rng, focus="C16")
+            script = [st for st in script if st["op"] != "raise"] + [{"op": "pad", "n": ctx.rng.choice([10, 60, 150, 400])}]
+            one(ctx, script, ctx.rng.randrange(1 << 30), prop, component="engine.large_final", crash_p=0.15, fault_p=0.05,
+                limits={"ckpt_limit": 200, "resp_limit": ctx.rng.choice([100, 149, 150, 151, 1000])})
     if prop == "C12":
         from harness import comp_strategy
         comp_strategy.run(ctx)
